@@ -311,6 +311,7 @@ def decOp (fs : List String) : Option World.Op :=
   | ["w.tract.preprocess", id, c, commit] => some (.tractPreprocess id.toNat! (optB c) (decBool commit))
   | ["w.tract.config", id, cfg] => some (.tractConfig id.toNat! (decCfgArg cfg))
   | ["w.find_twprge", t, ns, ew, pre, ocr] => some (.findTwprge (decText t) (decOpt ns) (decOpt ew) (decBool pre) (decBool ocr))
+  | ["w.from_twprgesec", a, b, c, ns, ew] => some (.fromTwprgesec (decArg a) (decArg b) (decArg c) (decOpt ns) (decOpt ew))
   | _ => Option.none
 
 def handleModel (fs : List String) : Option String :=
